@@ -2,6 +2,7 @@
 C15 — property theorems.  (Helper lemmas live in `Lemmas.lean`.)
 -/
 import LimnoriaModel.C15.BootLemmas
+import LimnoriaModel.C15.ValidatorLemmas
 namespace C15
 open Py
 
@@ -235,6 +236,66 @@ theorem socket_timeout_reject_atomic (pr : Char → Bool) (pn pd : Nat) (dflt : 
   simp only [Var.reach, ClassId.cls, ClassId.set, h, SetRes.map]
 
 example : socketTimeoutSet 5 1 "3".toList = .error ∧ socketTimeoutSet 5 1 "7".toList = .ok 7 := by decide
+
+/-! ### the other value classes and the conf.py validators (their engines are parameters) -/
+
+/-- Every `set` / `setValue` of registry.py, conf.py and plugins/*/config.py finishes its checks
+(`self.error(...)`) before it stores anything (extracted from the source on every run): a
+rejected value is never in force, not even for a moment.  This is the structural fact behind
+`reject_atomic` for the classes whose checks the model does not contain. -/
+theorem validators_check_before_store : ∀ p ∈ Gen.Registry.checkThenStore, p.2 = true := by
+  decide +kernel
+
+/-- "check, then store" rejects without storing: the outcome is the parent's or a plain error -/
+theorem guarded_verdict {β : Type} (ok : β → Bool) (parent : β → SetRes β) (v : β) :
+    (ok v = true ∧ guardedSetValue ok parent v = parent v) ∨ (ok v = false ∧ guardedSetValue ok parent v = .error) := by
+  unfold guardedSetValue
+  cases h : ok v <;> simp
+
+/-- guarded String classes (ValidNick, ValidNickOrEmpty, ValidNickAllowingPercentS, ValidHostmask,
+SocksProxy, ValidPrefixChars, TemplatedString, IP, … — whatever the predicate is): an accepted
+value reloads to itself -/
+theorem guarded_string_roundtrip (pr : Char → Bool) (ok : Str → Bool) (v : Str) (h : ok v = true) :
+    guardedStrSet pr ok (strStr pr v) = .ok v :=
+  guarded_roundtrip_aux quotes_table_ok pr ok v h
+
+example : prefixCharsOk "@!".toList = true := by decide
+
+/-- OnlySomeStrings and its conf.py subclasses: what `setValue` stores for a valid string reloads
+to itself -/
+theorem only_some_strings_roundtrip (pr : Char → Bool) (valid : List Str) (s : Str) (hs : valid.contains s = true) :
+    ossSet pr valid (strStr pr (ossNormalize valid s)) = .ok (ossNormalize valid s) :=
+  oss_roundtrip_aux quotes_table_ok pr valid s hs
+
+example : (ossTable "ValidBrackets").contains "[]".toList = true ∧ ossSetValue (ossTable "ValidBrackets") "[)".toList = .error := by
+  decide
+
+/-- Json, for any `loads` / `dumps` with `loads (dumps j) = j`: the stored canonical text reloads
+to itself -/
+theorem json_roundtrip {J : Type} (loads : Str → Option J) (dumps : J → Str)
+    (h : ∀ j, loads (dumps j) = some j) (j : J) : jsonSet loads dumps (dumps j) = .ok (dumps j) := by
+  unfold jsonSet; rw [h j]
+
+/-- Float, PositiveFloat, Probability, for any parser / printer with `float(repr(x)) == x`: an
+accepted value reloads to itself -/
+theorem float_roundtrip {F : Type} (parse : Str → Option F) (print : F → Str) (leZero inUnit : F → Bool)
+    (h : ∀ x, parse (print x) = some x) (k : FloatClass) (x : F) (hacc : floatSetValue leZero inUnit k x = .ok x) :
+    floatSet parse leZero inUnit k (print x) = .ok x := by
+  unfold floatSet; rw [h x]; exact hacc
+
+/-- Regexp, for any (deterministic) `perlReToPythonRe`: a value that `set` produced reloads to
+itself from its text -/
+theorem regexp_roundtrip {R : Type} (compile : Str → Option R) (s : Str) (v : Option (Str × R))
+    (h : regexpSet compile s = .ok v) : regexpSet compile (regexpStr v) = .ok v := by
+  unfold regexpSet at h
+  split at h
+  · cases h; simp [regexpStr, regexpSet]
+  · rename_i hne
+    split at h
+    · rename_i r hr
+      cases h
+      simp only [regexpStr, regexpSet, if_neg hne, hr]
+    · cases h
 
 /-! ### the file always loads -/
 
